@@ -9,6 +9,7 @@ import (
 	"strings"
 
 	"github.com/regclient/regclient/scheme"
+	"github.com/regclient/regclient/types/descriptor"
 	"github.com/regclient/regclient/types/errs"
 	"github.com/regclient/regclient/types/mediatype"
 	"github.com/regclient/regclient/types/ref"
@@ -42,6 +43,11 @@ func (o *OCIDir) tagDelete(_ context.Context, r ref.Ref) error {
 	if !changed {
 		return fmt.Errorf("failed deleting %s: %w", r.CommonName(), errs.ErrNotFound)
 	}
+	// the forward scan above skips the entry that follows a deleted one, remove any repeated entry for the tag
+	index.Manifests = slices.DeleteFunc(index.Manifests, func(desc descriptor.Descriptor) bool {
+		t, ok := desc.Annotations[aOCIRefName]
+		return ok && t == r.Tag
+	})
 	// push manifest back out
 	err = o.writeIndex(r, index, true)
 	if err != nil {
